@@ -43,7 +43,10 @@ DirFailures(ev) ==
                                               /\ (x.exs[i].status = 200 \/ x.exs[i].status \in {301, 302, 307, 308})
               THEN {} ELSE {"bundle does not hold exactly one exchange per file at base URL + percent-encoded relative path"})
         \cup (IF ev.dump_exit = 0 THEN {} ELSE {"dump-bundle rejects gen-bundle's output"})
-        \cup (IF ev.sign = "sigsection" /\ ~(ev.sign_exit = 0 /\ ev.dump2_exit = 0 /\ ev.marks.signed = Len(x.exs) /\ ev.marks.verr = 0 /\ ev.marks.sigerr = 0)
+        \* covered = the signer's certificate is valid for the bundle's host: every exchange is then reported as signed; otherwise
+        \* the tool vouches for nothing (an empty subset), which is still a bundle the consumer must take: nothing signed, no error
+        \cup (IF ev.sign = "sigsection" /\ ~(ev.sign_exit = 0 /\ ev.dump2_exit = 0 /\ ev.marks.verr = 0 /\ ev.marks.sigerr = 0
+                                         /\ (IF ev.covered THEN ev.marks.signed = Len(x.exs) ELSE ev.marks.signed = 0 /\ ev.marks.notsigned = Len(x.exs)))
               THEN {"bundle signed with a signatures section does not verify in dump-bundle"} ELSE {}))
 
 IbFailures(ev) ==
